@@ -223,13 +223,11 @@ func runC07(r *core.Run) {
 		}
 		for k := 0; k <= n; k++ {
 			jobs = append(jobs, job{sc, "crash", k, n})
-			if k < n && (!quick(r) || sc.quickFaults) {
+			if k < n {
 				jobs = append(jobs, job{sc, "fault", k, n})
 			}
 		}
-		if quick(r) && !sc.quickFaults {
-			exhaustive = false
-		}
+
 	}
 	r.Exhaustive(exhaustive)
 	core.Parallel(len(jobs), 16, func(ji int) {
